@@ -27,9 +27,15 @@ Proof. vm_compute. split; reflexivity. Qed.
 Theorem C07_handlers_do_not_reenter : check_no_reentry skel = true.
 Proof. vm_compute. reflexivity. Qed.
 
-(** known finding D13, as a theorem about the generated skeleton: without the assumption that the request
-    queue always has a free slot, a producer can block on it while holding m.mu and c.mu *)
+(** without the assumption that the request queue always has a free slot, a producer can wait for a slot while
+    holding m.mu and c.mu (a stall for as long as the control plane exerts back-pressure on the sender) ... *)
 Theorem C07_blocking_send_under_locks_without_capacity : v_block (sv (check_all false skel)) = false.
+Proof. vm_compute. reflexivity. Qed.
+
+(** ... but never a deadlock: the only consumer of the queue, the sender, never waits for a lock on any of its paths
+    (its re-subscription on a new stream spins on TryLock, discarding the superseded queue entries; this is the repair
+    of D13), so the thread a blocked producer waits for is not waiting for any lock the producer holds *)
+Theorem C07_queue_consumer_never_waits_for_a_lock : check_consumer_never_waits skel = true.
 Proof. vm_compute. reflexivity. Qed.
 
 (** ---- path level ---- *)
@@ -72,6 +78,7 @@ Print Assumptions C07_lock_discipline.
 Print Assumptions C07_policy_before_data.
 Print Assumptions C07_handlers_do_not_reenter.
 Print Assumptions C07_blocking_send_under_locks_without_capacity.
+Print Assumptions C07_queue_consumer_never_waits_for_a_lock.
 Print Assumptions C07_every_path_checked.
 Print Assumptions C07_no_lock_deadlock.
 Print Assumptions C07_no_data_race.
